@@ -355,6 +355,23 @@ fn one_case(cfg: &Cfg, grp: &str, case: u64, rng: &mut Rng, rep: &mut Report, sc
         rep.count("trace_bfv_ntt_form_operand", if r.is_ok() { "accepted" } else { "refused" });
     }
 
+    // ---- history: the Evaluator is a long-lived object that serves every level. Before the packing checks of this case (all on
+    //      one level) it packs and traces once on ANOTHER level of the chain, so that anything it initialises lazily is
+    //      initialised for a different modulus count first (lower level first when this case checks the top level, and vice versa)
+    if kit.levels.len() >= 2 {
+        let other = if level == 0 { kit.levels.len() - 1 } else { 0 };
+        let other_id = *kit.levels[other].parms_id();
+        let r = lib(|| {
+            let c = match &msgs[0] {
+                Msg::Real(v) => kit.enc.encrypt_new(&kit.ckks.as_ref().unwrap().encode_f64_polynomial_new(v, Some(other_id), scale)),
+                Msg::Int(v) => { let c = kit.enc.encrypt_new(&env.benc.as_ref().unwrap().encode_polynomial_new(v)); if other == 0 { c } else { kit.eval.mod_switch_to_new(&c, &other_id) } }
+            };
+            let l0 = kit.eval.extract_lwe(&c, 0); let l1 = kit.eval.extract_lwe(&c, 1);
+            let _ = kit.eval.pack_lwe_ciphertexts(&[l0, l1], &env.gk);
+        });
+        rep.count("history_prelude", &format!("{}|pack on level {} before level {}|{}", sname, other, level, if r.is_ok() { "ran" } else { "refused" }));
+    }
+
     // ---- (3) packing k extractions; LWE j comes from source j%2, representation (j/2)%2, coefficient (a j + b) mod N
     let a = 2 * rng.usize_below(n / 2) + 1; let b = rng.usize_below(n);
     let ks_list: Vec<usize> = if exh { (1..=n).collect() } else { k_set(n, rng, if n >= 2048 { 7 } else { 64 }) };
